@@ -102,6 +102,9 @@ def run_case(case, tier):
             outs.append(out)
             if op[0] in ("set", "del", "batch") and not (isinstance(out, Exc) or (op[0] == "batch" and out[1] is not None)):
                 HX.step(tc, op, cback)          # mirror successful writes only
+                if bad is None and op[0] != "batch" and not inside and bytes(t.root_hash) != bytes(tc.root_hash):
+                    bad = (f"{op[0]} on the incomplete database succeeded with a different result (root hash) than on the "
+                           "complete database instead of raising MissingTrieNode")
             if op[0] == "state":
                 last_state = out
             elif bad is None and not inside and op[0] in ("get", "exists", "set", "del", "traverse", "traverse_from"):
